@@ -104,6 +104,18 @@ CLAIMED = {
              "kind, cooked and raw initial modes, settings switched between reads, paste and signals options on and off.",
         note=TTY_NOTE + "The runtime behaviour the model cannot exhibit: unwinding, tcsetattr, the line discipline.",
         technique="Coq proof over a small abstract model (induction over the reads) + tcgetattr-based oracle on a pty for every exit kind"),
+    "C02": dict(
+        text="PARTIAL. Theorems over the render model and a VT100-subset terminal specification (Spec/Vt.v): for text of width-1 "
+             "characters (each its own cluster, no line break / tab / escape), every width W >= 1, every start position, the "
+             "terminal's position after each character -- deferred wrap included -- is exactly what rustyline's calc_go computes, "
+             "and calculate_position (prompt size, cursor, end of layout) is the cell where the terminal draws the next "
+             "character. The display invariant as a whole (what is shown equals the prompt + line + hint laid out on a blank "
+             "screen, nothing left over, cursor on the logical cursor after every key, cursor after the line at return) and all "
+             "other character classes (wide, zero-width, line breaks, coloured prompts) are decided on every run by an "
+             "independent emulator over every byte the implementation wrote, plus byte-for-byte correspondence with the render "
+             "model. Known findings K_fullrow_lf, K_zw_after_lf (recorded, classes excluded); F17 repaired.",
+        note=TTY_NOTE + "Real terminals are represented by the emulator's stated assumptions.",
+        technique="Coq proof: simulation between the terminal specification and calc_go by induction over the text; extracted-model differential check of every byte written + independent VT emulator oracle"),
     "C13": dict(
         text="Theorems for every validator, editor state and text: executing Enter / C-j / C-m says Submit only if the verdict on "
              "the current text is Valid, and then text and cursor are exactly those validated; a Valid verdict does submit; "
